@@ -12,6 +12,7 @@ a_real a_trajbell_gen(a_trajbell *ctx, a_real jm, a_real am, a_real vm,
     if (jm < 0) { jm = -jm; }
     if (am < 0) { am = -am; }
     if (vm < 0) { vm = -vm; }
+    if (jm == 0 || am == 0 || vm == 0) { goto fail; }
     v0 = A_SAT(v0, -vm, +vm);
     v1 = A_SAT(v1, -vm, +vm);
     ctx->p0 = p0;
